@@ -79,34 +79,43 @@ def parseStrBody : Nat → Str → Str → Option (Str × Str)
 
 def takeDigits (s : Str) : Str × Str := (s.takeWhile isDigit, s.dropWhile isDigit)
 
+/-- optional minus sign -/
+def numSign (s : Str) : Str × Str :=
+  match s with
+  | '-' :: r => (['-'], r)
+  | _ => ([], s)
+/-- `0 | [1-9][0-9]*` -/
+def numInt (s1 : Str) : Option (Str × Str) :=
+  match s1 with
+  | '0' :: r => some (['0'], r)
+  | c :: _ => if isDigit c then some (takeDigits s1) else none
+  | [] => none
+/-- `(\.[0-9]+)?` -/
+def numFrac (s2 : Str) : Option (Str × Str) :=
+  match s2 with
+  | '.' :: r => let (d, r') := takeDigits r; if d.isEmpty then none else some ('.' :: d, r')
+  | _ => some ([], s2)
+/-- `([eE][+-]?[0-9]+)?` -/
+def numExp (s3 : Str) : Option (Str × Str) :=
+  match s3 with
+  | e :: r =>
+    if e = 'e' ∨ e = 'E' then
+      let (sg, r1) := match r with | '+' :: t => (['+'], t) | '-' :: t => (['-'], t) | _ => ([], r)
+      let (d, r2) := takeDigits r1
+      if d.isEmpty then none else some (e :: (sg ++ d), r2)
+    else some ([], s3)
+  | [] => some ([], s3)
+
 /-- a number literal at the head of the input: `-?(0|[1-9][0-9]*)(\.[0-9]+)?([eE][+-]?[0-9]+)?` -/
 def parseNum (s : Str) : Option (Str × Str) :=
-  let (sign, s1) := match s with | '-' :: r => (['-'], r) | _ => ([], s)
-  let intPart : Option (Str × Str) :=
-    match s1 with
-    | '0' :: r => some (['0'], r)
-    | c :: _ => if isDigit c then some (takeDigits s1) else none
-    | [] => none
-  match intPart with
+  let (sign, s1) := numSign s
+  match numInt s1 with
   | none => none
   | some (ip, s2) =>
-    let fracPart : Option (Str × Str) :=
-      match s2 with
-      | '.' :: r => let (d, r') := takeDigits r; if d.isEmpty then none else some ('.' :: d, r')
-      | _ => some ([], s2)
-    match fracPart with
+    match numFrac s2 with
     | none => none
     | some (fp, s3) =>
-      let expPart : Option (Str × Str) :=
-        match s3 with
-        | e :: r =>
-          if e = 'e' ∨ e = 'E' then
-            let (sg, r1) := match r with | '+' :: t => (['+'], t) | '-' :: t => (['-'], t) | _ => ([], r)
-            let (d, r2) := takeDigits r1
-            if d.isEmpty then none else some (e :: (sg ++ d), r2)
-          else some ([], s3)
-        | [] => some ([], s3)
-      match expPart with
+      match numExp s3 with
       | none => none
       | some (ep, s4) => some (sign ++ ip ++ fp ++ ep, s4)
 
